@@ -1,0 +1,27 @@
+// Copyright 2021 TiKV Project Authors.
+//
+// Licensed under the Apache License, Version 2.0 (the "License");
+// you may not use this file except in compliance with the License.
+// You may obtain a copy of the License at
+//
+//     http://www.apache.org/licenses/LICENSE-2.0
+//
+// Unless required by applicable law or agreed to in writing, software
+// distributed under the License is distributed on an "AS IS" BASIS,
+// See the License for the specific language governing permissions and
+// limitations under the License.
+
+//go:build verif
+// +build verif
+
+// Machine-checked contracts for heartbeat streams (checked by /verif/govc; comment-only file).
+package hbstream
+
+// Every command handed to the sender is stamped with the region's id and current epoch and addressed
+// to the region's current leader; nothing is sent (or changed) for a region without leader.
+//@ func (*HeartbeatStreams).SendMsg
+//@   props C09
+//@   requires region != nil && region.meta != nil && msg != nil
+//@   ensures [stamped] region.leader != nil ==> msg.RegionId == region.meta.Id && msg.RegionEpoch == region.meta.RegionEpoch && msg.TargetPeer == region.leader && msg.Header != nil && msg.Header.ClusterId == s.clusterID
+//@   ensures [noleader] region.leader == nil ==> msg.RegionId == old(msg.RegionId) && msg.RegionEpoch == old(msg.RegionEpoch) && msg.TargetPeer == old(msg.TargetPeer) && msg.Header == old(msg.Header)
+//@   modifies msg.Header, msg.RegionId, msg.RegionEpoch, msg.TargetPeer
